@@ -70,7 +70,7 @@ SEMANTIC_RULES = {
     "C14": {"R1m", "R1t", "R1v", "R2", "R5"},
     "C16": {"CLONEv", "R4v", "R6", "R7", "R8", "R9a", "R2v"},
     "C17": {"R1", "R2", "R5", "R6", "R6w", "R3w", "R7v"},
-    "C18": {"R1", "R2", "R3", "R4", "R5", "R3v", "R1v"},
+    "C18": {"R1", "R2", "R3", "R4", "R5", "R3v", "R1v", "R1w"},
     "C19": {"R1", "R2", "R3", "R3b", "R4", "R8", "R9", "R10", "R11", "A12", "R12"},
 }
 
